@@ -14,6 +14,10 @@ def kindStr : Kind → String | .btc => "btc" | .evm => "evm" | .sub => "sub"
 def parseRound (s : String) : Option (Round × Option Nat) :=
   match s.splitOn ":" with
   | hd :: fl :: st :: rest => do
+    -- `<height>~<c>`: the BTC node reports `c` confirmations for the best block it hands out (c > 1: the tip moved on
+    -- between the two RPCs). The code under test reads only the height; the head of the round is that height, which IS
+    -- the true tip at the time of the head query (GetBestBlockHash).
+    let hd := (hd.splitOn "~").headD hd
     let head ← if hd = "E" || hd = "F" then some none else (hd.toInt?).map some
     let pan ← if fl.startsWith "p" then ((fl.drop 1).toString.toNat?).map some else some none
     let fail ← if fl = "n" then some none else if pan.isSome then some pan else (fl.toNat?).map some
